@@ -621,3 +621,71 @@ Proof.
   - reflexivity.
   - reflexivity.
 Qed.
+
+(** * the guarded API: total over all size_t values *)
+Lemma stack_size_max : MYTH_STACK_SIZE_MAX = 2 ^ 30.
+Proof. reflexivity. Qed.
+
+Lemma attr_setstacksize_spec old s :
+  (2 ^ 30 < s -> attr_setstacksize old s = (EINVAL, old)) /\
+  (s <= 2 ^ 30 -> attr_setstacksize old s = (0, s)).
+Proof.
+  unfold attr_setstacksize. rewrite stack_size_max. split; intros H.
+  - destruct (s >? 2 ^ 30) eqn:E; [reflexivity|]. rewrite Z.gtb_ltb in E. apply Z.ltb_ge in E. lia.
+  - destruct (s >? 2 ^ 30) eqn:E; [|reflexivity]. rewrite Z.gtb_ltb in E. apply Z.ltb_lt in E. lia.
+Qed.
+
+(** a request of at least one page never carves: the allocation cannot run out of fuel *)
+Lemma flmalloc_page_ok mmap f w r : 4096 <= r <= 2 ^ 30 -> exists b f', flmalloc mmap f w r = AOk b f'.
+Proof.
+  intros Hr. destruct (size_class_spec r ltac:(lia)) as (i & Hc & Hi & Hfit & _).
+  unfold flmalloc. rewrite Hc. destruct (fl_pop w i (fl_lists f)) as [[p l]|]; [eauto|].
+  assert (Hge : PAGE_SIZE <= 2 ^ i) by (unfold PAGE_SIZE; lia).
+  destruct (2 ^ i <? PAGE_SIZE) eqn:E; [apply Z.ltb_lt in E; lia|]. eauto.
+Qed.
+
+(** Every value a [size_t] attribute can hold is either rejected with EINVAL - exactly the sizes
+    above 2^30, and then nothing is allocated - or served: default size for 0, and for
+    [1 <= n <= 2^30] a stack for which everything [release_same_class_custom] states holds. *)
+Theorem guarded_create_total : forall mmap gsz st w n, 0 <= n < 2 ^ 64 ->
+  (2 ^ 30 < n -> create_stack mmap gsz st w n = CEinval) /\
+  (n <= 2 ^ 30 ->
+     exists top st', create_stack mmap gsz st w n = CCreated top st' /\
+                     stack_get mmap gsz st w n = SOk top st' /\
+                     (1 <= n -> round_page n <= 2 ^ 30 /\ n + 4095 < 2 ^ 64)).
+Proof.
+  intros mmap gsz st w n Hn. unfold create_stack. rewrite stack_size_max. split; intros H.
+  - destruct (n >? 2 ^ 30) eqn:E; [reflexivity|]. rewrite Z.gtb_ltb in E. apply Z.ltb_ge in E. lia.
+  - destruct (n >? 2 ^ 30) eqn:E; [rewrite Z.gtb_ltb in E; apply Z.ltb_lt in E; lia|].
+    assert (Hround : 1 <= n -> round_page n <= 2 ^ 30 /\ n + 4095 < 2 ^ 64).
+    { intros H1. destruct (round_page_spec n ltac:(lia) ltac:(lia)) as (Hr & Hm & _). split; [|lia].
+      (* 2^30 is a multiple of the page and the rounded size is the least multiple >= n *)
+      pose proof (Z.div_mod (round_page n) 4096 ltac:(lia)) as Hd. rewrite Hm in Hd.
+      assert (round_page n / 4096 <= 262144) by (apply Z.lt_succ_r; apply Z.nle_gt; intros Hc; nia).
+      change (2 ^ 30) with (4096 * 262144). lia. }
+    unfold stack_get. destruct (n =? 0) eqn:E0.
+    + destruct (pop_w w (s_def st)) as [[top r]|]; eauto 10.
+    + apply Z.eqb_neq in E0. destruct (Hround ltac:(lia)) as (Hr30 & Hov).
+      pose proof (round_page_pos n ltac:(lia) Hov) as Hr4.
+      destruct (flmalloc_page_ok mmap (s_fl st) w (round_page n) ltac:(lia)) as (b & f' & Hf).
+      rewrite Hf. eauto 10.
+Qed.
+
+(** what the API accepts it serves correctly: a custom size that passes the guard gets a stack of
+    at least that size inside one block, whose release recomputes the block and the class *)
+Theorem accepted_size_served : forall mmap gsz st w n, 1 <= n <= 2 ^ 30 ->
+  exists top st' b i,
+    create_stack mmap gsz st w n = CCreated top st' /\
+    size_class (round_page n) = Class i (2 ^ i) /\
+    n <= round_page n <= 2 ^ i /\
+    top = b + round_page n - 16 /\ b <= top /\ top + 16 <= b + 2 ^ i /\
+    load (s_mem st') (top + 8) = round_page n /\
+    (forall m, load m (top + 8) = round_page n -> release_target m top = RClass i b).
+Proof.
+  intros mmap gsz st w n Hn.
+  destruct (guarded_create_total mmap gsz st w n ltac:(lia)) as (_ & Hok).
+  destruct (Hok ltac:(lia)) as (top & st' & Hc & Hget & Hr). destruct (Hr ltac:(lia)) as (Hr30 & Hov).
+  destruct (release_same_class_custom mmap gsz st w n top st' ltac:(lia) Hov Hr30 Hget)
+    as (b & i & H1 & _ & H3 & H4 & H5 & H6 & H7 & H8 & H9).
+  exists top, st', b, i. repeat split; try assumption; lia.
+Qed.
